@@ -3,7 +3,7 @@
      roundtrip : cfg_rt c = true -> Inv c u -> Stable idna_raw c u -> Href u false = Some s ->
                  Parse idna_raw c s = PUrl (rt_url u s)
 
-   [rt_url u s] is [u] with input [s], no validation errors and no search-parameter object; in particular
+   [rt_url u s] is [u] with input [s], no validation errors and no searchParams object; in particular
    [same_components (rt_url u s) u].  The stability conditions are exactly those that have a counterexample
    below ([*_needed]).  *)
 From Verif Require Import Lib.Base Lib.Utf8 Lib.GoStr Model.Cfg Gen.Tables Gen.Options Model.Sets Model.Percent
@@ -121,8 +121,23 @@ Proof.
   rewrite (Utf8Proofs.runes_ascii _ Hsm). apply (opaque_loop_id c Hrep Hfail u0 (x :: r) (x :: r) [] Hf Hn).
 Qed.
 
+(* for a non-special scheme [Inv] already makes every host that is not bracketed a fixed point *)
+Lemma host_fixed_nonspecial idna_raw c u :
+  cfg_rt c = true -> Inv c u -> IsSpecialScheme c u = false ->
+  (forall h, u_host u = Some h -> is_bracketed h = false) -> host_fixed idna_raw c u.
+Proof.
+  intros Hc Hi Hsp Hnb. pose proof (cfg_rt_sound c Hc) as R. intros h Hh.
+  destruct (I_host _ _ Hi h Hh) as [Hok Hpr]. rewrite Hsp in Hok. unfold host_ok in Hok. rewrite (Hnb h Hh) in Hok.
+  cbn [orb] in Hok.
+  assert (Hn : none_in pes_C0 h = true).
+  { unfold none_in. revert Hpr. apply forallb_impl. intros x Hx. apply negb_true_iff.
+    unfold RuneShouldBeEncoded, printable in *. cbn [pes_C0 ab bits bs_test mem existsb]. lia. }
+  exact (host_fixed_opaque idna_raw c u h (R_rep c R) (R_fail c R) (R_pre c R) Hsp Hh Hok Hn h Hh).
+Qed.
+
 Print Assumptions host_fixed_ipv6.
 Print Assumptions host_fixed_opaque.
+Print Assumptions host_fixed_nonspecial.
 
 (* ------------------------------------------------------------------------------------------ *)
 (* reportValidationErrors is irrelevant                                                         *)
